@@ -1,6 +1,6 @@
 SPECIFICATION Spec
 CONSTANTS
-  KeySet = {"v1", "v2", "i1", "i2"}
+  KeySet = {"v1", "v2", "i1", "i2", "b1"}
   MaxLen = 2
   MaxHist = 3
   AsWas = TRUE
